@@ -82,6 +82,11 @@ fn apply_pre(map: &mut AnyMap, pre: &[crate::hist::Step]) {
                     map.remove_free_dart(*d);
                 }
             }
+            Step::RemoveAnyDart(d) => {
+                if *d != 0 && *d < map.n_darts() as u32 {
+                    let _ = crate::hist::remove_catching(map, *d);
+                }
+            }
         }
     }
 }
